@@ -133,6 +133,10 @@ func (c *Client[Req, Res]) CallServerStream(ctx context.Context, request *Reques
 	}
 	conn := c.newConn(ctx, StreamTypeServer)
 	mergeHeaders(conn.RequestHeader(), request.header)
+	// The Request's headers may have been used for an earlier call, or come
+	// from a request that's being forwarded: what they say about the protocol,
+	// the codec and the compression must not replace what this call uses.
+	c.protocolClient.WriteRequestHeader(StreamTypeServer, conn.RequestHeader())
 	// Send always returns an io.EOF unless the error is from the client-side.
 	// We want the user to continue to call Receive in those cases to get the
 	// full error from the server-side.
